@@ -12,8 +12,8 @@ def c17_part(chk, tier, rng):
     # the Disk monitor decodes every MANIFEST byte written with the model's log reader and edit decoder (the independent
     # decoder of the statement) and checks that CURRENT only ever names a complete, synced MANIFEST: its verdict is the property
     wl_run.run_histories(chk, n, nops, {'conforms', 'layout', 'recover', 'step'}, 'manifest-replay', journal=True, oracle_tags=('conforms',))
-    fam = lambda r, db, img, nops_: crash_gen.history(r, db, img, nops_, '014', False, 30 if tier == 'quick' else 300)
-    wl_run.run_histories(chk, 4 if tier == 'quick' else 60, 20 if tier == 'quick' else 25, {'crashopen', 'conforms'}, 'current-switch-crashes', family=fam)
+    fam = lambda r, db, img, nops_: crash_gen.history(r, db, img, nops_, '014', False, 30 if tier == 'quick' else 100)
+    wl_run.run_histories(chk, 4 if tier == 'quick' else 24, 20 if tier == 'quick' else 25, {'crashopen', 'conforms'}, 'current-switch-crashes', family=fam)
     wl_run.run_histories(chk, 2 if tier == 'quick' else 16, 0, {'conforms', 'layout', 'recover', 'step', 'get'}, 'manifest-growth', family='manifest-growth', journal=True, oracle_tags=('conforms',))
 
 
@@ -22,8 +22,8 @@ def c04_part(chk, tier, rng):
     import wl_run, crash_gen
     chk.rules.append('crash images (kill, torn-tail and zero-block variants) of histories with multi-operation batches spanning several 32 KiB log blocks: the recovered contents must be those of a '
                      'set of whole batches (the crash oracle builds its reference from whole batches only)')
-    fam = lambda r, db, img, nops_: crash_gen.history(r, db, img, nops_, '035', False, 30 if tier == 'quick' else 300)
-    wl_run.run_histories(chk, 6 if tier == 'quick' else 80, 22 if tier == 'quick' else 30, {'crashview', 'crashinvented', 'crashopen', 'batchatomic', 'crashsync'}, 'batch-crash-atomicity', family=fam)
+    fam = lambda r, db, img, nops_: crash_gen.history(r, db, img, nops_, '035', False, 30 if tier == 'quick' else 100)
+    wl_run.run_histories(chk, 6 if tier == 'quick' else 40, 22 if tier == 'quick' else 30, {'crashview', 'crashinvented', 'crashopen', 'batchatomic', 'crashsync'}, 'batch-crash-atomicity', family=fam)
 
 
 def c20_part(chk, tier, rng):
